@@ -43,6 +43,9 @@ structure Cfg where
   dropDetached : Bool
   /-- children's executor settings survive the merge (pinned: live executors are gone) -/
   keepKidExe : Bool
+  /-- every other executor-valued attribute of the node itself survives the merge as well — a for-node's
+  `body_node_executor` (`For._get_state_from_remote_other`); false: the copy's stripped value overwrites it -/
+  keepBodyExe : Bool := true
   deriving Repr, DecidableEq
 
 def Cfg.pinned : Cfg := { keepIO := false, dropDetached := false, keepKidExe := false }
@@ -90,6 +93,9 @@ structure Own where
   outLinked : Bool               -- own output channel forwards to the owning macro's output
   inRefs    : List (Option Ref)  -- per input slot: the (single) connection, to a sibling's output
   outRefs   : List Ref           -- the output channel's connections (sibling, bundle, input slot)
+  /-- further executor-valued attributes of the node object (a for-node's `body_node_executor`, handed to
+  every body node it builds) -/
+  bodyExe   : Exe := .none
   deriving Repr, DecidableEq
 
 inductive CK | macro | forLike | wf
@@ -253,10 +259,12 @@ def mergeBack (cfg : Cfg) (o : Own) (k : CK) (links : List (Option Ref)) (rins :
     (rkids : List Node) : Node :=
   let det := if cfg.dropDetached then o.detached else (o.hasParent || o.detached)
   let kids := if cfg.keepKidExe then rkids else stripDeep.stripKids rkids
+  -- the copy's state carries the stripped value (`__getstate__`); it replaces the local one unless it is popped
+  let be := if cfg.keepBodyExe then o.bodyExe else o.bodyExe.strip
   if cfg.keepIO then
-    .comp { o with out := rout, running := false, failed := false, detached := det } k links kids
+    .comp { o with out := rout, running := false, failed := false, detached := det, bodyExe := be } k links kids
   else
-    .comp { o with ins := rins, out := rout, running := false, failed := false, detached := det,
+    .comp { o with bodyExe := be, ins := rins, out := rout, running := false, failed := false, detached := det,
                    gen := o.gen + 1, ioMine := false,
                    outLinked := false,
                    inRefs := if k = .macro then o.inRefs else o.inRefs.map fun _ => none,
@@ -369,10 +377,11 @@ structure Shape where
   outLinked : Bool
   inRefs : List (Option Ref)
   outRefs : List Ref
+  bodyExe : Exe
   deriving Repr, DecidableEq
 
 def Own.shape (o : Own) : Shape :=
-  { label := o.label, exe := o.exe, hasParent := o.hasParent, detached := o.detached, gen := o.gen,
+  { bodyExe := o.bodyExe, label := o.label, exe := o.exe, hasParent := o.hasParent, detached := o.detached, gen := o.gen,
     ioMine := o.ioMine, outLinked := o.outLinked, inRefs := o.inRefs, outRefs := o.outRefs }
 
 inductive ShapeT
